@@ -24,7 +24,7 @@ RULE = (
     "each run draws a source raster (1-48 px per side, optional leading time or trailing band axis with regular or irregular chunks, dtype incl. bool "
     "with nodata, native or big-endian, nodata setting, distinct non-fill pixel values), "
     "a destination grid (same CRS: exact dyadic grids with integer/sub-pixel shifts, scales, mirroring; inexact and rotated grids; cross CRS "
-    "among 4326/3857/32633/3577-like/3035; contained / partial / touching / disjoint; 4 % whole-world, pole-containing and pole-centred pairs), source and destination chunk shapes (1-pixel and "
+    "among 4326/3857/32633/3577-like/3035; contained / partial / touching / disjoint; 6 % whole-world, pole-containing, pole-centred and domain-edge pairs), source and destination chunk shapes (1-pixel and "
     "non-dividing included) and a DaskSim configuration (policy, K workers, transport, recompute, fusion); the graph is executed twice under "
     "different schedules. Non-trivial: more than one task of the reprojection layer ran. Distinct: (grid pair, dtype, nodata, chunking, task order)."
 )
@@ -40,7 +40,7 @@ ASSUMPTIONS = [
     "O13.1 (exact equality) applies to same-CRS nearest-neighbour runs; on inexact grids destination centres within 1e-6 px of a source pixel edge are left out (counted)",
     "O13.2/O13.5 use a safety margin of 3 source + 3 destination pixels around the projected footprint, computed with affine/pyproj/numpy",
     "source pixel values never equal the fill value, except the planted pixels equal to the source nodata (35 % of runs with a source nodata)",
-    "whole-world / polar pairs come from six fixed templates (GLOBAL_TEMPLATES) with drawn chunkings; on them the tile-overlap computation raises for pole-containing footprints and for 360-degree-wide destination chunks (known findings D13g, D13h)",
+    "whole-world, polar and domain-edge pairs come from twelve fixed templates (GLOBAL_TEMPLATES) with drawn chunkings (D13g, D13h, D13j lived there; repaired)",
     "cross-CRS rasters are local (at most ~150 km across): on continental extents the per-chunk source-tile lookup approximates curved outlines too coarsely (C12's dependency completeness, not claimed) - see DESIGN 7.3",
 ]
 
@@ -80,6 +80,14 @@ GLOBAL_TEMPLATES = {
     "global-src-3413": ({"crs": 4326, "aff": [4.0, 0.0, -180.0, 0.0, -4.0, 90.0], "shape": [45, 90]}, {"crs": 3413, "aff": [200000.0, 0.0, -3000000.0, 0.0, -200000.0, 3000000.0], "shape": [30, 30]}),
     "world-dst": ({"crs": 32633, "aff": [10.0, 0.0, 500000.0, 0.0, -10.0, 6000000.0], "shape": [4, 4]}, {"crs": 4326, "aff": [4.0, 0.0, -180.0, 0.0, -4.0, 90.0], "shape": [45, 90]}),
     "world-dst-lat84": ({"crs": 32633, "aff": [10.0, 0.0, 500000.0, 0.0, -10.0, 6000000.0], "shape": [4, 4]}, {"crs": 4326, "aff": [4.0, 0.0, -180.0, 0.0, -4.0, 84.0], "shape": [42, 90]}),
+    # footprints that touch the edge of a projection's domain (round 7): web-mercator tiles of the first / last column of
+    # the XYZ scheme against lon/lat boxes, whole-world grids in both systems, a raster two pixels from the antimeridian
+    "webmerc-east-tile-src": ({"crs": 3857, "aff": [156543.03392804097, 0.0, 15028131.257091932, 0.0, -156543.03392804097, 5009377.085697312], "shape": [32, 32]}, {"crs": 4326, "aff": [1.40625, 0.0, 135.0, 0.0, -1.28125, 41.0], "shape": [32, 32]}),
+    "webmerc-east-tile-dst": ({"crs": 4326, "aff": [1.40625, 0.0, 135.0, 0.0, -1.28125, 41.0], "shape": [32, 32]}, {"crs": 3857, "aff": [156543.03392804097, 0.0, 15028131.257091932, 0.0, -156543.03392804097, 5009377.085697312], "shape": [32, 32]}),
+    "webmerc-west-tile-src": ({"crs": 3857, "aff": [156543.03392804097, 0.0, -20037508.342789244, 0.0, -156543.03392804097, 5009377.085697312], "shape": [32, 32]}, {"crs": 4326, "aff": [1.40625, 0.0, -180.0, 0.0, -1.28125, 41.0], "shape": [32, 32]}),
+    "world-lonlat-to-webmerc": ({"crs": 4326, "aff": [4.0, 0.0, -180.0, 0.0, -4.0, 90.0], "shape": [45, 90]}, {"crs": 3857, "aff": [626172.1357121639, 0.0, -20037508.342789244, 0.0, -626172.1357121639, 20037508.342789244], "shape": [64, 64]}),
+    "world-webmerc-to-lonlat": ({"crs": 3857, "aff": [626172.1357121639, 0.0, -20037508.342789244, 0.0, -626172.1357121639, 20037508.342789244], "shape": [64, 64]}, {"crs": 4326, "aff": [4.0, 0.0, -180.0, 0.0, -4.0, 90.0], "shape": [45, 90]}),
+    "antimeridian-src": ({"crs": 3857, "aff": [100000.0, 0.0, 17300000.0, 0.0, -100000.0, 5000000.0], "shape": [27, 27]}, {"crs": 4326, "aff": [0.25, 0.0, 168.0, 0.0, -0.25, 42.0], "shape": [48, 48]}),
     "hemisphere-dst": ({"crs": 32633, "aff": [10.0, 0.0, 500000.0, 0.0, -10.0, 6000000.0], "shape": [4, 4]}, {"crs": 4326, "aff": [2.0, 0.0, -30.0, 0.0, -2.0, 80.0], "shape": [30, 45]}),
 }
 
@@ -108,7 +116,7 @@ def global_cause(src: dict, dst: dict, dst_chunks: Any) -> Optional[str]:
 def generate(rng: random.Random, tier: str) -> dict:
     # pylint: disable=too-many-locals,too-many-branches,too-many-statements
     mode = rng.choice(["same-exact"] * 5 + ["same-inexact"] * 2 + ["same-rotated"] * 2 + ["cross"] * 4)
-    if rng.random() < 0.04:
+    if rng.random() < 0.06:
         mode = "cross-global"
     sides = [1, 2, 3, 5, 8, 13, 16, 17, 24, 31, 48] + ([64, 96] if tier == "thorough" else [])
     aligned_chunks = False
@@ -291,7 +299,7 @@ def generate(rng: random.Random, tier: str) -> dict:
     if aligned_chunks and rng.random() < 0.8:
         dch = list(sch)
     if mode == "cross-global":
-        dch = list(rng.choice([[45, 90], [45, 45], [5, 90], [15, 30], [10, 36], [30, 30], [7, 16]]))
+        dch = list(rng.choice([[45, 90], [45, 45], [5, 90], [15, 30], [10, 36], [30, 30], [7, 16], [16, 16], [32, 32]]))
         if g_tpl.startswith("world-dst") and rng.random() < 0.4:
             dch = list(rng.choice([[45, 90], [5, 90], [14, 90]]))  # a destination chunk as wide as the world
     tch = rng.choice([1, max(tdim, 1)])
